@@ -7,10 +7,12 @@
    judge1 (every case):
      0 parse_ok   every raw message is the rendering of its parsed fields, and _extract_line_count reads the count back
      1 lit_ok     norm under the claimed flags = the literal pipeline normalize_line(render) on every line, no stray
-                  directive keyword, and the KeywordArgumentFilter model answers like the real filter (kw_ok)
+                  directive keyword, the models of the four block filters and of the registry answer like the real ones
+                  on the probed line ranges and no stored row is one the model's registry drops (kw_ok)
      2 sound_b impl   3 mutual_sb impl (covered or excused by a suppression)   4 complete_sb impl (exact only)
      5 count_b impl and silent_b impl (nothing suppressed is reported) and, filter stream, rows_okb of the stored rows
      6 impl = model under the claimed vector
+     10 the real block filters / registry answer as DOCUMENTED on the probed line ranges (kw_doc_ok)
      7..9 the project lies in the defect class of the flag (strip: a code part contains `#` or `//`;
           block: a /* */ comment occurs; asym: some stored window spans more source lines than W)
    judge2 (cases on which a clause failed or bit 6 is false; all cases once bit 6 failed anywhere):
@@ -51,13 +53,38 @@ Definition lit_ok (q : dquirks) (files : list afile) : bool :=
                                       else if String.eqb (norm q (f_lang f) a) (norm_literal (f_lang f) a) then stray_free (f_lang f) a else false)
                             (f_lines f)) files.
 
-(* unit level: the real KeywordArgumentFilter.should_filter was called on windows of a file (file index, the
-   multi-line ast.Call spans of the file, (start, end, answer) triples); the model must give the same answers *)
-Definition kw_ok (files : list afile) (kw : list (nat * list (nat * nat) * list (nat * nat * bool))) : bool :=
+(* unit level: the real filters (KeywordArgumentFilter, ImportGroupFilter, LoggerCallFilter, ExceptionReraiseFilter) and
+   the real registry (of the analyzer that handles the file: the configured one for Python, the default one for TS/JS)
+   were called on windows and short line ranges of a file: (file index, the multi-line ast.Call spans Python's ast sees
+   in the file, (start, end, answers) triples, answers = 1*kwarg + 2*import + 4*logger + 8*reraise + 16*registry);
+   the model must give the same answers; and no row the implementation stored may be one the model's registry drops *)
+Definition b2n (b : bool) (w : nat) : nat := if b then w else 0.
+Definition filter_mask (configured : bool) (custom : list (string * bool)) (calls : list (nat * nat)) (raw : list string) (s e : nat) : nat :=
+  b2n (model_kwarg_filter raw calls s e) 1 + b2n (model_import_filter raw s e) 2 + b2n (model_logger_filter raw s e) 4
+  + b2n (model_reraise_filter raw s e) 8 + b2n (model_registry configured custom calls raw s e) 16.
+Definition is_py (l : dlang) : bool := match l with DPy => true | DTs => false end.
+Definition kw_ok (files : list afile) (custom : list (string * bool)) (irows : option (list row))
+           (kw : list (nat * list (nat * nat) * list (nat * nat * nat))) : bool :=
   forallb (fun t => let '(fi, calls, tests) := t in
              let f := nth_file files fi in
              let raw := map (render_line (f_lang f)) (f_lines f) in
-             forallb (fun x => let '(s, e, b) := x in Bool.eqb (model_kwarg_filter raw calls s e) b) tests) kw.
+             let py := is_py (f_lang f) in
+             if forallb (fun x => let '(s, e, m) := x in filter_mask py custom calls raw s e =? m) tests
+             then match irows with
+                  | Some ri => forallb (fun r => if r_file r =? fi then negb (model_registry py custom calls raw (r_start r) (r_end r)) else true) ri
+                  | None => true
+                  end
+             else false) kw.
+
+(* the same answers against the DOCUMENTED filters (Model/DryFilter.v *_ref, docs/dry-linter.md "Available Filters") *)
+Definition filter_mask_ref (configured : bool) (custom : list (string * bool)) (calls : list (nat * nat)) (raw : list string) (s e : nat) : nat :=
+  b2n (kwarg_filter_ref raw calls s e) 1 + b2n (import_filter_ref raw s e) 2 + b2n (logger_filter_ref raw s e) 4
+  + b2n (reraise_filter_ref raw s e) 8 + b2n (registry_ref configured custom calls raw s e) 16.
+Definition kw_doc_ok (files : list afile) (custom : list (string * bool)) (kw : list (nat * list (nat * nat) * list (nat * nat * nat))) : bool :=
+  forallb (fun t => let '(fi, calls, tests) := t in
+             let f := nth_file files fi in
+             let raw := map (render_line (f_lang f)) (f_lines f) in
+             forallb (fun x => let '(s, e, m) := x in filter_mask_ref (is_py (f_lang f)) custom calls raw s e =? m) tests) kw.
 
 (* defect classes, decided on the abstract input with hand-written tests *)
 Definition class_strip (files : list afile) : bool :=
@@ -86,14 +113,14 @@ Definition RI (tbl : list string) (f s e : nat) (ids : list nat) : row :=
 (* R: all reported violations (parsed fields); msgs: a sample of them with the raw message text *)
 Definition judge1 (q : dquirks) (exact : bool) (W k : nat) (files : list afile) (pats paths : list string)
            (R : list viol) (msgs : list (viol * string)) (irows : option (list row))
-           (kw : list (nat * list (nat * nat) * list (nat * nat * bool))) : list bool :=
+           (custom : list (string * bool)) (kw : list (nat * list (nat * nat) * list (nat * nat * nat))) : list bool :=
   let rrows := ref_rows W files in
   let mrows := dry_rows q W files in
   (* the count clause is relative to the stored rows when filters may have dropped windows *)
   let crows := if exact then rrows else match irows with Some ri => ri | None => rrows end in
-  parse_ok paths msgs :: (if lit_ok q files then kw_ok files kw else false)
+  parse_ok paths msgs :: (if lit_ok q files then kw_ok files custom irows kw else false)
   :: spec_bits exact pats paths files W k crows R
-  ++ [cand_ok exact irows k pats paths files R q mrows; class_strip files; class_block files; class_asym W mrows].
+  ++ [cand_ok exact irows k pats paths files R q mrows; class_strip files; class_block files; class_asym W mrows; kw_doc_ok files custom kw].
 
 Definition judge2 (q : dquirks) (exact : bool) (W k : nat) (files : list afile) (pats paths : list string)
            (R : list viol) (irows : option (list row)) : list bool :=
